@@ -55,6 +55,7 @@ func main() {
 	icmp6Out := flag.String("icmp6-out", "", "output Lean file for the translated ICMPv6 / NDP spoofing handler (F15, Gen/Icmp6Gen.lean); default: not written")
 	sendOut := flag.String("send-out", "", "output Lean file for the translated send paths (F15, Gen/Senders.lean); default: not written")
 	dhcpSrvOut := flag.String("dhcpsrv-out", "", "output Lean file for the translated DHCPv4 server functions (F15, Gen/DhcpSrvGen.lean); default: not written")
+	dhcpFileOut := flag.String("dhcpfile-out", "", "output Lean file for the translated DHCPv4 lease-file logic and handler construction (F19, Gen/DhcpFileGen.lean); default: not written")
 	flag.Parse()
 	cfg := &packages.Config{Mode: packages.NeedName | packages.NeedFiles | packages.NeedSyntax | packages.NeedTypes | packages.NeedTypesInfo | packages.NeedImports | packages.NeedDeps, Dir: *repo, Tests: false}
 	pkgs, err := packages.Load(cfg, "./", "./handlers/...", "./fastlog")
@@ -155,6 +156,14 @@ func main() {
 		var ib strings.Builder
 		icmp6Facts(pkgs, &ib)
 		if err := os.WriteFile(*icmp6Out, []byte(ib.String()), 0o644); err != nil {
+			fmt.Fprintln(os.Stderr, err)
+			os.Exit(1)
+		}
+	}
+	if *dhcpFileOut != "" {
+		var db strings.Builder
+		dhcpFileFacts(pkgs, &db)
+		if err := os.WriteFile(*dhcpFileOut, []byte(db.String()), 0o644); err != nil {
 			fmt.Fprintln(os.Stderr, err)
 			os.Exit(1)
 		}
